@@ -232,7 +232,7 @@ TABLE = {
     ("shredder::fill_missing_shreds", "panic", "panicking::assert_failed"): (1, "RegularShredder (the only one the node uses): RS coder yields DATA_SHREDS data + CODING_OUTPUT_SHREDS coding = TOTAL_SHREDS (C11 O11.1)"),
     ("shredder::fill_missing_shreds", "unwrap", "Option::expect"): (1, "index < TOTAL_SHREDS by the assert above"),
     ("shredder::reed_solomon::ReedSolomonCoder::deshred", "unwrap", "Result::expect"):
-        (4, "reset: shard size non-zero and even (ValidatedShreds::try_new); add_*: equal sizes, distinct in-range indices (array positions, kind == position checked); decode: >= DATA_SHREDS shards (O11.2)"),
+        (4, "reset: shard size non-zero and even (ValidatedShreds::try_new, evaluated: C11 O11.7 / O10.1e) and reconfigured on every call (O11.9); add_*: equal sizes, distinct in-range indices (array positions, kind == position checked); decode: >= DATA_SHREDS shards (O11.2)"),
     ("shredder::reed_solomon::ReedSolomonCoder::deshred", "assert", "BoundsCheck"): (1, "received[i], i = index of a data shred < DATA_SHREDS (data_shred_payloads takes the first DATA_SHREDS positions; position == index asserted in try_new)"),
     ("shredder::reed_solomon::ReedSolomonCoder::deshred", "unwrap", "Option::expect"): (1, "every missing original shard is restored by a successful decode"),
     ("shredder::reed_solomon::ReedSolomonCoder::deshred", "index", "Vec<u8>[usize]"): (1, "marker_idx = len - padding via checked_sub, padding >= 1"),
